@@ -26,6 +26,17 @@ theorem segmentation_independent (segs₁ segs₂ : List Bytes) (h : segs₁.fla
     readStream segs₁ = readStream segs₂ := by
   rw [reader_refines_stream, reader_refines_stream, h]
 
+/-- **Empty transport messages are inert** (a zero-length websocket message is legal and carries no
+    octet of the packet stream): inserting one anywhere changes nothing. -/
+theorem empty_message_inert (a b : List Bytes) : readStream (a ++ [[]] ++ b) = readStream (a ++ b) :=
+  segmentation_independent _ _ (by simp)
+
+/-- **Fragmenting a message is inert**: a message delivered as two reads (or, by repetition, as any number
+    of continuation frames that the transport hands over one by one) is the same stream. -/
+theorem split_message_inert (a b : List Bytes) (x y : Bytes) :
+    readStream (a ++ [x, y] ++ b) = readStream (a ++ [x ++ y] ++ b) :=
+  segmentation_independent _ _ (by simp)
+
 /-- The stream of well-formed packets parses back to exactly those packets and a clean end
     (nothing pending). -/
 theorem stream_of_packets (ps : List Pkt) (h : ∀ p ∈ ps, p.wf) :
